@@ -718,8 +718,164 @@ fn run(v: &Value) -> Result<String, String> {
                 }
             }
         }
+        "bulk_numeric_sweep" => {
+            let lens = [0usize, 1, 2, 3, 7, 8, 9, 17, 64, 300];
+            let mut total = 0;
+            total += bulk_sweep_type::<u8>("u8", &lens)?;
+            total += bulk_sweep_type::<u16>("u16", &lens)?;
+            total += bulk_sweep_type::<u32>("u32", &lens)?;
+            total += bulk_sweep_type::<u64>("u64", &lens)?;
+            total += bulk_sweep_type::<i8>("i8", &lens)?;
+            total += bulk_sweep_type::<i16>("i16", &lens)?;
+            total += bulk_sweep_type::<i32>("i32", &lens)?;
+            total += bulk_sweep_type::<i64>("i64", &lens)?;
+            total += bulk_sweep_type::<f32>("f32", &lens)?;
+            total += bulk_sweep_type::<f64>("f64", &lens)?;
+            // complex pairs: bulk == generic, round trip, streaming == builder
+            let mut seed = 77u64;
+            for n in [0usize, 1, 2, 5, 64] {
+                let data: Vec<beve::Complex<f64>> = (0..n).map(|_| beve::Complex { re: f64::from_bits(lcg(&mut seed)), im: f64::from_bits(lcg(&mut seed)) }).collect();
+                let built = repe::Message::builder().id(3).query_str("/c").body_complex_slice(&data).build();
+                let back: Vec<beve::Complex<f64>> = built.decode_complex_slice().map_err(|e| e.to_string())?;
+                if back.len() != data.len() || back.iter().zip(&data).any(|(a, b)| a.re.to_bits() != b.re.to_bits() || a.im.to_bits() != b.im.to_bits()) {
+                    return Err(format!("complex n={n}: round trip differs"));
+                }
+                let mut streamed = Vec::new();
+                let mut h = repe::Header::new();
+                h.id = 3;
+                repe::write_message_complex_slice(&mut streamed, h, b"/c", &data).map_err(|e| e.to_string())?;
+                let mut expect = built.clone();
+                expect.header.query_format = 0;
+                if streamed[48..] != expect.to_vec()[48..] { return Err(format!("complex n={n}: streamed frame payload differs from the builder's")); }
+                total += 1;
+            }
+            Ok(format!("{total} bulk numeric cases held"))
+        }
         other => panic!("unknown replay entry `{other}`"),
     }
+}
+
+// A deviation is a confirmed failure of one specific, named input class that the sweep reports and then
+// steps over, so that the rest of the scope is still explored. The driver decides whether it is a listed
+// known finding (KNOWN-FINDING line) or a violation.
+static DEVIATIONS: std::sync::Mutex<Vec<(String, String)>> = std::sync::Mutex::new(Vec::new());
+fn deviation(name: &str, detail: String) {
+    let mut d = DEVIATIONS.lock().unwrap();
+    if !d.iter().any(|(n, _)| n == name) {
+        d.push((name.to_string(), detail));
+    }
+}
+
+// ---- C08 bounded stand-in: bulk numeric bodies -------------------------------------------------------
+fn lcg(seed: &mut u64) -> u64 {
+    *seed = seed.wrapping_mul(6364136223846793005).wrapping_add(1442695040888963407);
+    *seed
+}
+trait Gen: Sized + Copy + PartialEq + std::fmt::Debug + repe::BeveTypedSlice + serde::Serialize + serde::de::DeserializeOwned + Send + Sync + 'static {
+    fn from_bits64(b: u64) -> Self;
+    fn bits64(self) -> u64;
+    const SPECIAL: &'static [u64];
+}
+macro_rules! gen_int { ($($t:ty),*) => { $(impl Gen for $t {
+    fn from_bits64(b: u64) -> Self { b as $t }
+    fn bits64(self) -> u64 { self as u64 }
+    const SPECIAL: &'static [u64] = &[0, 1, u64::MAX, 1 << 7, 1 << 15, 1 << 31, 1 << 63, (1 << 63) - 1];
+})* } }
+gen_int!(u8, u16, u32, u64, i8, i16, i32, i64);
+impl Gen for f32 {
+    fn from_bits64(b: u64) -> Self { f32::from_bits(b as u32) }
+    fn bits64(self) -> u64 { self.to_bits() as u64 }
+    // +-0, +-inf, quiet/signalling NaNs with payloads, subnormal, max
+    const SPECIAL: &'static [u64] = &[0, 0x8000_0000, 0x7f80_0000, 0xff80_0000, 0x7fc0_0001, 0x7fa0_1234, 0xffff_ffff, 1, 0x7f7f_ffff];
+}
+impl Gen for f64 {
+    fn from_bits64(b: u64) -> Self { f64::from_bits(b) }
+    fn bits64(self) -> u64 { self.to_bits() }
+    const SPECIAL: &'static [u64] = &[0, 0x8000_0000_0000_0000, 0x7ff0_0000_0000_0000, 0xfff0_0000_0000_0000, 0x7ff8_0000_0000_0001, 0x7ff4_0000_dead_beef, u64::MAX, 1, 0x7fef_ffff_ffff_ffff];
+}
+fn gen_vec<T: Gen>(n: usize, seed: &mut u64) -> Vec<T> {
+    (0..n).map(|i| if i < T::SPECIAL.len() { T::from_bits64(T::SPECIAL[i]) } else { T::from_bits64(lcg(seed)) }).collect()
+}
+fn same_bits<T: Gen>(a: &[T], b: &[T]) -> bool { a.len() == b.len() && a.iter().zip(b).all(|(x, y)| x.bits64() == y.bits64()) }
+
+fn bulk_sweep_type<T: Gen>(name: &str, lens: &[usize]) -> Result<usize, String> {
+    use repe::peer::CallContext;
+    let mut seed = 0x9E3779B97F4A7C15u64 ^ name.len() as u64;
+    let mut cases = 0;
+    let router = repe::Router::new()
+        .with_typed_slice_ref::<T, T, _>("/r", |xs: &[T]| Ok(xs.to_vec()))
+        .with_typed_slice::<T, T, _>("/o", |xs: Vec<T>| Ok(xs));
+    for &n in lens {
+        let data: Vec<T> = gen_vec(n, &mut seed);
+        // 1. bulk body == generic serde body (non-empty), BEVE format
+        let bulk = repe::Message::builder().id(1).query_str("/q").body_typed_slice(&data).build();
+        if bulk.header.body_format != repe::BodyFormat::Beve as u16 { return Err(format!("{name} n={n}: body_typed_slice did not set the BEVE format")); }
+        let generic = repe::Message::builder().id(1).query_str("/q").body_beve(&data).map_err(|e| e.to_string())?.build();
+        if n >= 1 && bulk.body != generic.body { return Err(format!("{name} n={n}: bulk body differs from the generic serde body")); }
+        // 2. each decoder reads the other encoder's output, bit for bit
+        let d1: Vec<T> = bulk.decode_typed_slice().map_err(|e| format!("{name} n={n}: decode_typed_slice(bulk): {e}"))?;
+        let d2: Vec<T> = match generic.decode_typed_slice() {
+            Ok(v) => v,
+            Err(e) if n == 0 => {
+                deviation("empty_generic_vector_rejected_by_bulk_decoder", format!("Message::builder().body_beve(&Vec::<{name}>::new()) then decode_typed_slice::<{name}>() -> Err({e}); body bytes {:?}", generic.body));
+                Vec::new()
+            }
+            Err(e) => return Err(format!("{name} n={n}: decode_typed_slice(generic): {e}")),
+        };
+        let d3: Vec<T> = bulk.beve_body().map_err(|e| format!("{name} n={n}: beve_body(bulk): {e}"))?;
+        if !same_bits(&d1, &data) || !same_bits(&d2, &data) || !same_bits(&d3, &data) { return Err(format!("{name} n={n}: decoded elements differ from the originals")); }
+        // 3. streaming writer == buffered builder frame, for every query length residue
+        for qlen in [0usize, 1, 3, 7, 8, 9] {
+            let q: Vec<u8> = (0..qlen).map(|i| if i == 0 { b'/' } else { b'a' + (i % 20) as u8 }).collect();
+            let built = repe::Message::builder().id(9).query_bytes(q.clone()).query_format(repe::QueryFormat::JsonPointer).body_typed_slice(&data).build();
+            let mut streamed = Vec::new();
+            let mut h = repe::Header::new();
+            h.id = 9;
+            h.query_format = repe::QueryFormat::JsonPointer as u16;
+            repe::write_message_typed_slice(&mut streamed, h, &q, &data).map_err(|e| e.to_string())?;
+            if streamed != built.to_vec() { return Err(format!("{name} n={n} qlen={qlen}: write_message_typed_slice frame differs from the buffered builder's frame")); }
+            if built.clone().into_wire_bytes() != built.to_vec() { return Err(format!("{name} n={n} qlen={qlen}: into_wire_bytes differs from to_vec")); }
+        }
+        // 4. wrong format / wrong element type is rejected, not reinterpreted
+        for code in [0u16, 2, 3, 4, 0x1000, 0xffff] {
+            let mut m = bulk.clone();
+            m.header.body_format = code;
+            if m.decode_typed_slice::<T>().is_ok() { return Err(format!("{name} n={n}: a body declared as format {code} was decoded as a typed array")); }
+        }
+        // 5. the aligned form through the borrowing route, at every buffer misalignment and query length residue
+        for qlen in 0..=16usize {
+            let mut q = vec![b'r'; qlen.max(2)];
+            q[0] = b'/';
+            q.truncate(qlen.max(2));
+            let path = String::from_utf8(q.clone()).unwrap();
+            let r2 = repe::Router::new().with_typed_slice_ref::<T, T, _>(&path, |xs: &[T]| Ok(xs.to_vec()));
+            let frame = repe::Message::builder().id(7).query_bytes(q.clone()).query_format(repe::QueryFormat::JsonPointer)
+                .body_aligned_typed_slice(&data).build().to_vec();
+            for mis in 0..8usize {
+                let words = (frame.len() + mis) / 8 + 2;
+                let mut backing: Vec<u64> = vec![0; words];
+                let bytes = unsafe { std::slice::from_raw_parts_mut(backing.as_mut_ptr() as *mut u8, words * 8) };
+                bytes[mis..mis + frame.len()].copy_from_slice(&frame);
+                let placed = &bytes[mis..mis + frame.len()];
+                let view = repe::MessageView::from_slice(placed).map_err(|e| e.to_string())?;
+                let handler = r2.get(&path).ok_or("route missing")?;
+                let ctx = CallContext::detached(&path);
+                let resp = handler.handle_view(&view, &ctx).map_err(|e| format!("{name} n={n} qlen={} mis={mis}: handle_view: {e}", q.len()))?;
+                if resp.is_error() { return Err(format!("{name} n={n} qlen={} mis={mis}: borrowing route answered an error: {:?}", q.len(), resp.error_message_utf8())); }
+                let back: Vec<T> = resp.decode_typed_slice().map_err(|e| e.to_string())?;
+                if !same_bits(&back, &data) { return Err(format!("{name} n={n} qlen={} mis={mis}: borrowing route saw different elements", q.len())); }
+                // the owned dispatch path must agree
+                let owned = handler.handle(&view.to_message()).map_err(|e| format!("{name} n={n} qlen={} mis={mis}: handle(owned): {e}", q.len()))?;
+                if owned.is_error() || !same_bits(&owned.decode_typed_slice::<T>().map_err(|e| e.to_string())?, &data) {
+                    return Err(format!("{name} n={n} qlen={}: owned dispatch of the aligned form failed or differs", q.len()));
+                }
+                cases += 1;
+            }
+        }
+        let _ = &router;
+        cases += 1;
+    }
+    Ok(cases)
 }
 
 fn main() {
@@ -729,6 +885,9 @@ fn main() {
         match run(&v) {
             Ok(d) => {
                 println!("CHILD ok {d}");
+                for (n, det) in DEVIATIONS.lock().unwrap().iter() {
+                    println!("DEVIATION {n} {det}");
+                }
                 std::process::exit(0)
             }
             Err(d) => {
@@ -757,8 +916,12 @@ fn main() {
     let so = String::from_utf8_lossy(&out.stdout);
     let se = String::from_utf8_lossy(&out.stderr);
     let last_err = se.lines().filter(|l| !l.trim().is_empty()).take(3).collect::<Vec<_>>().join(" | ");
+    let devs: Vec<String> = so.lines().filter(|l| l.starts_with("DEVIATION ")).map(|l| l[10..].to_string()).collect();
+    for d in &devs {
+        println!("DEVIATION {d}");
+    }
     let (outcome, detail, code) = match out.status.code() {
-        Some(0) => ("ok", so.trim().to_string(), 0),
+        Some(0) => ("ok", so.lines().find(|l| l.starts_with("CHILD")).unwrap_or("").trim().to_string(), 0),
         Some(3) => ("violation", so.trim().to_string(), 1),
         Some(101) => ("panic", last_err, 1),
         Some(c) => ("exit", format!("code {c}: {last_err}"), 1),
